@@ -236,10 +236,9 @@ pub async fn run(o: &HistOpts) -> HistOutcome {
                         c.envelope_violations_sent += 1;
                     } else {
                         let shape: Vec<usize> = (0..r.range(1, 3)).map(|_| *r.pick(&[0usize, 1, 17, 255, 256, 3000, 9000])).collect();
-                        let mut payload = rc::tagged(i as u16, p.next_seq, &shape);
-                        if r.chance(1, 5) {
-                            // a message whose LAST frame is empty (stripped again before the tag check)
-                            payload.push(vec![]);
+                        // (a quarter of all tagged messages end in an empty frame, see refcodec)
+                        let payload = rc::tagged(i as u16, p.next_seq, &shape);
+                        if rc::trailing_empty(i as u16, p.next_seq) {
                             c.messages_ending_in_empty_frame += 1;
                         }
                         p.peer.send_held(&wire_for(ty, &payload));
@@ -388,12 +387,9 @@ pub async fn run(o: &HistOpts) -> HistOutcome {
         drop(rv);
         let Some(res) = res else { continue };
         match res {
-            Ok(mut m) => {
+            Ok(m) => {
                 deliveries += 1;
                 c.deliveries += 1;
-                if m.len() >= 2 && m.last().map(|f| f.is_empty()).unwrap_or(false) {
-                    m.pop(); // the deliberate trailing empty frame
-                }
                 let skip = if ty == "ROUTER" { 1 } else { 0 };
                 let tag = match rc::parse_tag(&m, skip) {
                     Ok(t) => t,
